@@ -2,7 +2,7 @@
    (per-rank maximum), the IMP keywords of a cell card, the importance a cell
    ends up with, the skip list and the cells handed to the conversion. *)
 From Coq Require Import List NArith ZArith Bool String Ascii Lia Reals Lra.
-From T4V Require Import Base.Str Base.Scalar C12.Text C12.Model C12.Spec C12.ProofsExpand.
+From T4V Require Import Base.Str Base.Scalar C12.Text C12.Model C12.Spec C12.ProofsExpand C12.ProofsText.
 Import ListNotations.
 Open Scope string_scope.
 Open Scope list_scope.
@@ -110,6 +110,56 @@ Section Dict.
   Qed.
 End Dict.
 
+(* ================= LIKE n BUT chains, as written ================= *)
+
+(* the options of the cards a LIKE chain visits, nearest card first *)
+Fixpoint chain_cards (fuel : nat) (d : list card) (b : body) : res (list string) :=
+  match b with
+  | Explicit _ _ => Ok []
+  | Like n =>
+      match fuel with
+      | O => Err ELoop
+      | S f =>
+          match dict_get Z.eqb n d with
+          | None => Err EKey
+          | Some (b', o') => do l <- chain_cards f d b'; Ok (o' :: l)
+          end
+      end
+  end.
+
+(* no colon at either end of the option text (it would merge with the
+   neighbouring card's options when apply_but joins them) *)
+Definition clean_opts (o : string) : Prop := ends_colon o = false /\ lead_colon o = false.
+
+(* the option text handed to the parser for a LIKE chain has the tokens of the
+   base card's options, then of every card of the chain down to the BUT options
+   of the card itself *)
+Lemma resolve_chain_tokens : forall fuel (d : list card) b opts l,
+  chain_cards fuel d b = Ok l ->
+  Forall (fun c => clean_opts (snd (snd c))) d -> lead_colon opts = false ->
+  exists mat geom o,
+    resolve_like fuel d b opts = Ok (mat, geom, o) /\ lead_colon o = false /\
+    option_tokens o = (flat_map option_tokens (rev l) ++ option_tokens opts)%list.
+Proof.
+  induction fuel as [|f IH]; intros d b opts l Hc Hd Ho.
+  - destruct b as [mat geom|n]; [|discriminate]. cbn in Hc. injection Hc as <-.
+    exists mat, geom, opts. split; [reflexivity|split; [exact Ho|reflexivity]].
+  - destruct b as [mat geom|n].
+    + cbn in Hc. injection Hc as <-. exists mat, geom, opts. split; [reflexivity|split; [exact Ho|reflexivity]].
+    + cbn [chain_cards] in Hc. cbn [resolve_like].
+      destruct (dict_get Z.eqb n d) as [[b' o']|] eqn:Eg; [|discriminate].
+      destruct (chain_cards f d b') as [l'|] eqn:Ec; cbn [bind] in Hc; [|discriminate].
+      injection Hc as <-.
+      assert (clean_opts o') as [He Hl].
+      { apply (dict_get_some_in Z.eqb Z.eqb_eq) in Eg. rewrite Forall_forall in Hd.
+        exact (Hd _ Eg). }
+      destruct (IH d b' (o' ++ " " ++ opts)%string l' Ec Hd) as (mat & geom & o & Hr & Hlo & Ht).
+      { apply lead_colon_app; assumption. }
+      exists mat, geom, o. split; [exact Hr|]. split; [exact Hlo|].
+      rewrite Ht, (option_tokens_app o' opts He Ho). cbn [rev]. rewrite flat_map_app. cbn [flat_map].
+      rewrite app_nil_r, <- app_assoc. reflexivity.
+Qed.
+
 Section Cells.
   Context {T : Type} (Sc : Scalar T) (P : prims T).
 
@@ -120,7 +170,7 @@ Section Cells.
   Inductive cards_read : list (string * list string) -> list (list T) -> Prop :=
   | cr_nil : cards_read [] []
   | cr_cons name toks es vals cards valss :
-      reads P toks es -> meaning Sc es None = Some (map Some vals) ->
+      reads P toks es -> meaning Sc (pw P) es None = Some (map Some vals) ->
       cards_read cards valss ->
       cards_read ((name, toks) :: cards) (vals :: valss).
 
@@ -163,6 +213,92 @@ Section Cells.
     - symmetry. apply forallb_forall. intros l Hin. apply in_map_iff in Hin.
       destruct Hin as (l0 & <- & Hin0). rewrite !map_length.
       apply Nat.eqb_eq. rewrite Forall_forall in Hl. apply Hl. exact Hin0.
+  Qed.
+
+  (* ---- jumped entries (nJ): the code keeps None ---- *)
+
+  (* [cards_read_o cards valss]: as [cards_read], entries may be jumped (None) *)
+  Inductive cards_read_o : list (string * list string) -> list (list (option T)) -> Prop :=
+  | cro_nil : cards_read_o [] []
+  | cro_cons name toks es vals cards valss :
+      reads P toks es -> meaning Sc (pw P) es None = Some vals ->
+      cards_read_o cards valss ->
+      cards_read_o ((name, toks) :: cards) (vals :: valss).
+
+  Lemma expand_all_read_o cards valss :
+    cards_read_o cards valss -> expand_all Sc P cards = Ok valss.
+  Proof.
+    induction 1 as [|name toks es vals cards valss Hr Hm Hc IH]; [reflexivity|].
+    cbn [expand_all]. rewrite (expand_shorthand Sc P _ _ _ Hr Hm). cbn [bind].
+    rewrite IH. reflexivity.
+  Qed.
+
+  (* a single IMP card is taken as it is, jumped entries included *)
+  Theorem importance_cards_single name toks es vals :
+    reads P toks es -> meaning Sc (pw P) es None = Some vals ->
+    importance_cards Sc P [(name, toks)] = Ok vals.
+  Proof.
+    intros Hr Hm. unfold importance_cards. cbn [dict_of fold_left dict_set fst snd].
+    cbn [expand_all]. rewrite (expand_shorthand Sc P _ _ _ Hr Hm). reflexivity.
+  Qed.
+
+  Definition has_none (l : list (option T)) : bool :=
+    existsb (fun o => match o with None => true | Some _ => false end) l.
+
+  Lemma zip_max_none a : forall b,
+    List.length a = List.length b -> has_none a || has_none b = true -> zip_max Sc a b = Err EType.
+  Proof.
+    induction a as [|x a IH]; intros [|y b] Hl Hn; try discriminate.
+    cbn [zip_max]. destruct x as [x|]; [|reflexivity]. destruct y as [y|]; [|reflexivity].
+    cbn [pmax bind]. rewrite IH; [reflexivity|cbn in Hl; lia|exact Hn].
+  Qed.
+
+  Lemma zip_max_ok a : forall b,
+    List.length a = List.length b -> has_none a = false -> has_none b = false ->
+    exists m, zip_max Sc a b = Ok m /\ has_none m = false /\ List.length m = List.length a.
+  Proof.
+    induction a as [|x a IH]; intros [|y b] Hl Ha Hb; try discriminate.
+    - exists []. repeat split.
+    - destruct x as [x|]; [|discriminate]. destruct y as [y|]; [|discriminate].
+      destruct (IH b) as (m & Hm & Hn & Hlen); [cbn in Hl; lia|exact Ha|exact Hb|].
+      cbn [zip_max pmax bind]. rewrite Hm. eexists. split; [reflexivity|]. split; [exact Hn|].
+      cbn. rewrite Hlen. reflexivity.
+  Qed.
+
+  Lemma fold_max_none others : forall first,
+    others <> [] -> Forall (fun l => List.length l = List.length first) others ->
+    existsb has_none (first :: others) = true -> fold_max Sc first others = Err EType.
+  Proof.
+    induction others as [|b r IH]; intros first Hne Hl Hn; [congruence|].
+    inversion Hl as [|? ? Hb Hr]; subst. cbn [fold_max].
+    destruct (has_none first || has_none b) eqn:E.
+    - rewrite zip_max_none; [reflexivity|symmetry; exact Hb|exact E].
+    - apply orb_false_iff in E. destruct E as [E1 E2].
+      destruct (zip_max_ok first b (eq_sym Hb) E1 E2) as (m & Hm & Hmn & Hlen). rewrite Hm. cbn [bind].
+      cbn [existsb] in Hn. rewrite E1, E2 in Hn. cbn [orb] in Hn.
+      apply IH.
+      + intros ->. discriminate.
+      + eapply Forall_impl; [|exact Hr]. intros l Hl'. cbn beta in Hl'. rewrite Hl', Hlen. reflexivity.
+      + cbn [existsb]. rewrite Hmn. exact Hn.
+  Qed.
+
+  (* two or more IMP cards of one length, one of them with a jumped entry:
+     max(None, x) is a TypeError *)
+  Theorem importance_cards_jump_refused cards first others :
+    NoDup (map fst cards) -> cards_read_o cards (first :: others) -> others <> [] ->
+    Forall (fun l => List.length l = List.length first) others ->
+    existsb has_none (first :: others) = true ->
+    importance_cards Sc P cards = Err EType.
+  Proof.
+    intros Hn Hc Hne Hl Hj. unfold importance_cards.
+    rewrite (dict_of_distinct String.eqb String.eqb_eq _ Hn).
+    pose proof (expand_all_read_o _ _ Hc) as He.
+    inversion Hc as [|name toks es vals cards' valss Hr Hm Hc']; subst.
+    cbv beta iota. rewrite He. cbn [bind].
+    replace (forallb _ others) with true.
+    - apply fold_max_none; assumption.
+    - symmetry. apply forallb_forall. intros l Hin. apply Nat.eqb_eq.
+      rewrite Forall_forall in Hl. apply Hl. exact Hin.
   Qed.
 
   (* cards of different lengths are refused *)
@@ -320,6 +456,15 @@ Section Cells.
     - destruct (IH Hin) as (y & Hy). discriminate.
   Qed.
 
+  (* entries met later replace earlier ones, particle by particle *)
+  Lemma last_value_app p (a b : list (imp_entry (T:=T))) :
+    last_value p (a ++ b) = match last_value p b with Some y => Some y | None => last_value p a end.
+  Proof.
+    induction a as [|[ps x] r IH]; [cbn; destruct (last_value p b); reflexivity|].
+    cbn [app last_value]. rewrite IH. destruct (last_value p b); [reflexivity|].
+    destruct (last_value p r); reflexivity.
+  Qed.
+
   Lemma split_on_aux_nonempty c s cur : split_on_aux c s cur <> [].
   Proof. revert cur. induction s as [|d r IH]; intros cur; cbn; [discriminate|]. destruct (Ascii.eqb d c); [discriminate|apply IH]. Qed.
 
@@ -425,8 +570,35 @@ Section Cells.
     repeat split; apply negb_true_iff; assumption.
   Qed.
 
-  (* the values of the IMP keywords, or None when the list holds anything but
-     IMP keywords followed by a number and inert tokens *)
+  (* a keyword with exactly one argument: U = number, RHO = x, MAT = n, LAT = 1|2 *)
+  Definition one_arg_ok (t v : string) : bool :=
+    negb (String.prefix "imp" t) && negb (contains_sub "fill" t)
+    && (if contains_sub "lat" t
+        then match int_tok v with Some z => (z =? 1)%Z || (z =? 2)%Z | None => false end
+        else negb (contains_sub "trcl" t)
+             && (if String.eqb t "u" then match fl P v with Some _ => true | None => false end
+                 else contains_sub "rho" t || contains_sub "mat" t)).
+
+  Lemma one_arg_consumes t v rest : one_arg_ok t v = true -> consumes t (v :: rest) 1.
+  Proof.
+    unfold one_arg_ok. intros H.
+    apply andb_true_iff in H. destruct H as [H H3]. apply andb_true_iff in H. destruct H as [H1 H2].
+    apply negb_true_iff in H1, H2. destruct (contains_sub "lat" t) eqn:El.
+    - destruct (int_tok v) as [z|] eqn:Ez; [|discriminate].
+      apply (consumes_lat t v z rest H1 H2 El Ez).
+      apply orb_true_iff in H3. destruct H3 as [H3|H3]; apply Z.eqb_eq in H3; auto.
+    - apply andb_true_iff in H3. destruct H3 as [H4 H5]. apply negb_true_iff in H4.
+      destruct (String.eqb t "u") eqn:Eu.
+      + destruct (fl P v) as [x|] eqn:Ef; [|discriminate].
+        apply (consumes_u t v x rest H1 H2 El H4 Eu Ef).
+      + destruct (contains_sub "rho" t) eqn:Er.
+        * apply (consumes_rho t v rest H1 H2 El H4 Eu Er).
+        * cbn [orb] in H5. apply (consumes_mat t v rest H1 H2 El H4 Eu Er H5).
+  Qed.
+
+  (* the IMP entries of a list of option tokens made of IMP keywords followed by
+     a number, one-argument keywords (U, RHO, MAT, LAT) and tokens no branch
+     reacts to; None for anything else (FILL, TRCL, a keyword without value) *)
   Fixpoint scan_imps (toks : list string) : option (list (imp_entry (T:=T))) :=
     match toks with
     | [] => Some []
@@ -439,7 +611,11 @@ Section Cells.
                        end
           | [] => None
           end
-        else if inert_b t then scan_imps r else None
+        else if inert_b t then scan_imps r
+        else match r with
+             | v :: r' => if one_arg_ok t v then scan_imps r' else None
+             | [] => None
+             end
     end.
 
   Lemma scan_imps_sound : forall n toks (xs : list (imp_entry (T:=T))),
@@ -452,9 +628,38 @@ Section Cells.
       + destruct r as [|v r']; [discriminate|]. destruct (tf P v) as [x|] eqn:Ef; [|discriminate].
         destruct (scan_imps r') as [xs'|] eqn:Es; [|discriminate]. cbn in H. injection H as <-.
         apply oi_imp; [exact Ep|exact Ef|]. apply IH; [cbn in Hn; lia|exact Es].
-      + destruct (inert_b t) eqn:Ei; [|discriminate].
-        apply (oi_other t r O); [apply consumes_inert; apply inert_b_inert; exact Ei|].
-        cbn [skipn]. apply IH; [cbn in Hn; lia|exact H].
+      + destruct (inert_b t) eqn:Ei.
+        * apply (oi_other t r O); [apply consumes_inert; apply inert_b_inert; exact Ei|].
+          cbn [skipn]. apply IH; [cbn in Hn; lia|exact H].
+        * destruct r as [|v r']; [discriminate|]. destruct (one_arg_ok t v) eqn:Eo; [|discriminate].
+          apply (oi_other t (v :: r') 1); [apply one_arg_consumes; exact Eo|].
+          cbn [skipn]. apply IH; [cbn in Hn; lia|exact H].
+  Qed.
+
+  (* the tokens of two cards one after the other *)
+  Lemma scan_imps_app : forall n t1 t2 es1 es2,
+    (List.length t1 <= n)%nat -> scan_imps t1 = Some es1 -> scan_imps t2 = Some es2 ->
+    scan_imps (t1 ++ t2) = Some (es1 ++ es2).
+  Proof.
+    induction n as [|n IH]; intros t1 t2 es1 es2 Hn H1 H2.
+    - destruct t1; [|cbn in Hn; lia]. cbn in H1. injection H1 as <-. exact H2.
+    - destruct t1 as [|t r]; [cbn in H1; injection H1 as <-; exact H2|].
+      cbn [scan_imps app] in *. destruct (String.prefix "imp" t).
+      + destruct r as [|v r']; [discriminate|]. cbn [app]. destruct (tf P v) as [x|]; [|discriminate].
+        destruct (scan_imps r') as [xs'|] eqn:Es; [|discriminate]. cbn in H1. injection H1 as <-.
+        rewrite (IH r' t2 xs' es2); [reflexivity|cbn in Hn; lia|exact Es|exact H2].
+      + destruct (inert_b t).
+        * apply IH; [cbn in Hn; lia|exact H1|exact H2].
+        * destruct r as [|v r']; [discriminate|]. cbn [app]. destruct (one_arg_ok t v); [|discriminate].
+          apply IH; [cbn in Hn; lia|exact H1|exact H2].
+  Qed.
+
+  Lemma scan_imps_concat tss : forall ess,
+    Forall2 (fun toks es => scan_imps toks = Some es) tss ess ->
+    scan_imps (List.concat tss) = Some (List.concat ess).
+  Proof.
+    induction tss as [|t r IH]; intros ess H; inversion H as [|? es ? ess' H1 H2]; subst; [reflexivity|].
+    cbn [List.concat]. apply (scan_imps_app (List.length t)); [apply le_n|exact H1|apply IH; exact H2].
   Qed.
 
   (* ================= the importance of a cell ================= *)
@@ -577,6 +782,24 @@ Section Cells.
       by (rewrite Hk; apply (dict_of_nodup Z.eqb Z.eqb_eq)).
     rewrite <- Ed. split; [exact Hk|]. split; [exact Hn|].
     intros key c Hin. rewrite Hs. apply in_filter_keys; assumption.
+  Qed.
+
+  (* the list printed in the NOTE: the keys of the zero-importance cells in the
+     order of the cell block, each once *)
+  Theorem skipped_in_order imp_cards cards lats cells skipped :
+    parse_cells Sc P imp_cards cards lats = Ok (cells, skipped) ->
+    skipped = map fst (filter (fun kc => is_zero (snd kc)) cells) /\ NoDup skipped.
+  Proof.
+    intros H. pose proof (skipped_iff_zero _ _ _ _ _ H) as (_ & Hn & _).
+    unfold parse_cells in H.
+    destruct (importance_cards Sc P imp_cards) as [imps|]; cbn [bind] in H; [|discriminate].
+    destruct (dict_of Z.eqb cards) as [|d0 d] eqn:Ed; [discriminate|].
+    destruct (parse_ranked_spec _ _ _ _ _ _ _ H) as [_ Hs]. split; [exact Hs|].
+    rewrite Hs. clear - Hn. induction cells as [|[k c] r IH]; [constructor|].
+    cbn [map fst] in Hn. inversion Hn as [|? ? Ha Hr]; subst. cbn [filter snd].
+    destruct (is_zero c); [|apply IH; exact Hr]. cbn [map fst]. constructor; [|apply IH; exact Hr].
+    intros Hin. apply Ha. apply in_map_iff in Hin. destruct Hin as ([k' c'] & <- & Hf).
+    apply filter_In in Hf. apply (in_map fst _ _ (proj1 Hf)).
   Qed.
 
   (* construct_volume_t4: exactly the cells of non-zero importance that are in
